@@ -309,6 +309,26 @@ pub fn attacks(
             out.push(Attack { expect_nonce: Some(n.clone()), ..base("verifier expects near-identical value", format!("verifier expects nonce {:?}, KB-JWT names {:?}", n, nonce), parts.clone()) });
         }
     }
+    // h''. verifier expects a *list* (JSON array text, space- or comma-separated) one of whose
+    // members is the value the KB-JWT names; a string is compared as a string
+    {
+        let lists = |v: &str| -> Vec<String> {
+            vec![
+                serde_json::to_string(&vec![v]).unwrap(),
+                serde_json::to_string(&vec![v, "https://other.example"]).unwrap(),
+                serde_json::to_string(&vec!["https://other.example", v]).unwrap(),
+                format!("{} https://other.example", v),
+                format!("https://other.example,{}", v),
+                serde_json::to_string(v).unwrap(),
+            ]
+        };
+        let l = lists(aud);
+        let a = l[ch.pick(l.len())].clone();
+        out.push(Attack { expect_aud: Some(a.clone()), ..base("verifier expects a list containing the value", format!("verifier expects aud {:?}, KB-JWT names {:?}", a, aud), parts.clone()) });
+        let l = lists(nonce);
+        let n = l[ch.pick(l.len())].clone();
+        out.push(Attack { expect_nonce: Some(n.clone()), ..base("verifier expects a list containing the value", format!("verifier expects nonce {:?}, KB-JWT names {:?}", n, nonce), parts.clone()) });
+    }
     // i. only one of the two
     out.push(Attack { expect_aud: None, ..base("only one of aud/nonce", "verifier given only a nonce".into(), parts.clone()) });
     out.push(Attack { expect_nonce: None, ..base("only one of aud/nonce", "verifier given only an aud".into(), parts.clone()) });
